@@ -190,3 +190,19 @@ Definition h_append {A} (growcap : nat -> nat) (h : heap A) (s : hslice) (x : A)
 (* make([]byte, n, c): n zero bytes visible, c - n spare; panics unless 0 <= n <= c (None) *)
 Definition sl_make (n c : Z) : option gslice :=
   if (n <? 0) || (c <? n) then None else Some (repeat x00 (Z.to_nat n), repeat x00 (Z.to_nat (c - n))).
+(* make([]T, n, c) *)
+Definition h_make_cap {A} (h : heap A) (n c : Z) (zero : A) : option (hslice * heap A) :=
+  if (n <? 0) || (c <? n) then None
+  else Some ((List.length h, 0%nat, Z.to_nat n, Z.to_nat c), h ++ [repeat zero (Z.to_nat c)]).
+(* append(s, vals...): in place when the values fit into the spare capacity, else a new array *)
+Definition h_append_all {A} (growcap : nat -> nat) (h : heap A) (s : hslice) (vals : list A) : hslice * heap A :=
+  let '(a, o, l, c) := s in
+  let n := List.length vals in
+  if (l + n <=? c)%nat
+  then ((a, o, (l + n)%nat, c), replace_nth a h (h_write (nth a h []) (o + l) vals))
+  else let c' := Nat.max (l + n)%nat (growcap (l + n)%nat) in
+       ((List.length h, 0%nat, (l + n)%nat, c'),
+        h ++ [h_read h s ++ vals ++ match vals with v :: _ => repeat v (c' - (l + n))%nat | [] => [] end]).
+(* []T{..}: a new array *)
+Definition h_lit {A} (h : heap A) (vals : list A) : hslice * heap A :=
+  ((List.length h, 0%nat, List.length vals, List.length vals), h ++ [vals]).
